@@ -55,6 +55,7 @@ pub fn hist(seed: u64, n: usize, out: &mut Out) {
             invalid_pct: 4,
             mixed_pct: 0,
             zero_pct: 8,
+            extreme_pct: 0,
         };
         let mut sess = new_session(&cfg, out);
         let (steps, _keys) = run_history(&mut rng, &mut sess, &hp, out);
@@ -104,6 +105,7 @@ pub fn probe(seed: u64, n: usize, out: &mut Out) {
             invalid_pct: 0,
             mixed_pct: 0,
             zero_pct: 10,
+            extreme_pct: 0,
         };
         let mut sess = new_session(&cfg, out);
         let (steps, _) = run_history(&mut rng, &mut sess, &hp, out);
@@ -189,6 +191,7 @@ pub fn insert(seed: u64, n: usize, out: &mut Out) {
             invalid_pct: 0,
             mixed_pct: rng.pick(&[0u64, 30]),
             zero_pct: 5,
+            extreme_pct: 0,
         };
         // base run
         let mut sess = new_session(&cfg, out);
@@ -294,6 +297,7 @@ pub fn iso(seed: u64, n: usize, out: &mut Out) {
             invalid_pct: 3,
             mixed_pct: 10,
             zero_pct: 5,
+            extreme_pct: rng.pick(&[0u64, 0, 30]),
         };
         let mut sess = new_session(&cfg, out);
         let (steps, keys) = run_history(&mut rng, &mut sess, &hp, out);
@@ -361,7 +365,7 @@ pub fn storeops(seed: u64, n: usize, out: &mut Out) {
             now = now.saturating_add(g).min(4_102_444_800_000_000_000);
             let key = keys[rng.below(keys.len() as u64) as usize].clone();
             let kh = hex(key.as_bytes());
-            let ttl: u64 = rng.pick(&[0u64, 0, 1, 1, 2, 1000, 1_000_000_000, 5_000_000_000, 60_000_000_000, u64::MAX / 4, (1u64 << 62)]);
+            let ttl: u64 = rng.pick(&[0u64, 0, 1, 1, 2, 1000, 1_000_000_000, 5_000_000_000, 60_000_000_000, u64::MAX / 4, (1u64 << 62), i64::MAX as u64]);
             let t = ns_to_time(now);
             let cur = amap.get(&key).cloned();
             let vis = cur.filter(|(_, e)| *e > now as i128);
@@ -761,6 +765,7 @@ pub fn regress(seed: u64, n: usize, out: &mut Out) {
             invalid_pct: 0,
             mixed_pct: 0,
             zero_pct: 5,
+            extreme_pct: 0,
         };
         let mut sess = new_session(&cfg, out);
         let (steps, _) = run_history(&mut rng, &mut sess, &hp, out);
